@@ -13,12 +13,13 @@ import asyncio
 
 from vf.gen import hdlc_gen, p1_gen, splits
 from vf.mon import hdlc_mon, p1_mon, resync
+from vf.ref import p1_ref
 
 ID = "C14"
 LEVEL = "exploration"
 RULE = (
     "input = 1..4 noise pieces (random bytes; structural '/', '!', LF, CR, 7E, 7D dense; ident-like '/AB?5..' lines; bytes >= 0x80 on '/' lines; "
-    "'!' + hex / non-hex / non-ASCII tails; '!' inside the ident line; binary HDLC as seen by the P1 reader; corrupted frames and readouts) "
+    "'!' + hex / non-hex / non-ASCII tails; '!' inside the ident line; binary HDLC as seen by the P1 reader; corrupted frames and readouts; lines and readouts beyond the 8 KiB guard, inside and outside a readout) "
     "x splittings x target {HDLC reader x 4 configs, P1 reader, payload protocol [HDLC,P1], message protocol [HDLC,P1]}, then a clean suffix on the same instance. "
     "evaluations = executions; distinct non-trivial = distinct (target, input) digests on which the P1 reader left hunt mode or returned a readout, "
     "or the HDLC reader opened a frame (observed through is_in_hunt_mode / returned messages)."
@@ -48,7 +49,20 @@ def make_noise(rng) -> tuple[bytes, list[str]]:
     kinds = []
     for _ in range(rng.randint(1, 4)):
         r = rng.random()
-        if r < 0.6:
+        if r < 0.06:
+            # over-long lines and readouts (beyond the reader's 8 KiB guard), inside and outside a readout
+            ident = p1_ref.strict_ident(rng)[0]
+            k = rng.choice(("ident_overlong_line_then_end", "overlong_slash_line", "ident_overlong_readout_then_end", "overlong_line_then_bang"))
+            long_line = bytes(rng.randrange(0x20, 0x7F) for _ in range(rng.randint(8200, 9500))).replace(b"/", b"x").replace(b"!", b"y")
+            if k == "ident_overlong_line_then_end":
+                b = ident + b"\r\n" + long_line + b"\r\n1-0:1.8.0(1*kWh)\r\n!ABCD\r\n"
+            elif k == "overlong_slash_line":
+                b = b"/" + long_line + b"\r\n!\r\n"
+            elif k == "ident_overlong_readout_then_end":
+                b = ident + b"\r\n" + b"".join(b"1-0:1.8.0(%08d*kWh)\r\n" % rng.randrange(10**8) for _ in range(rng.randint(380, 450))) + b"!\r\n"
+            else:
+                b = long_line + b"\r\n!12\r\n"
+        elif r < 0.6:
             b, k = p1_gen.noise(rng, rng.randint(1, 120))
         elif r < 0.8:
             b, k = hdlc_gen.noise(rng, rng.randint(1, 120))
@@ -149,7 +163,7 @@ def run_case(target, cfg, noise, kinds, rng, ctx) -> None:
     else:
         suffix, sent = resync.p1_suffix(rng, rng.choice((2, 3, 6)))
     total = len(noise) + len(suffix)
-    specs = [("none",), ("bytewise",), splits.random_spec(rng, total, False), splits.random_spec(rng, total, False)]
+    specs = [("none",), ("bytewise",) if total < 3000 else ("fixed", rng.choice((64, 100, 1000, 1024, 4096)), rng.randrange(64)), splits.random_spec(rng, total, False), splits.random_spec(rng, total, False)]
     nontrivial = False
     for spec in specs:
         case = {"target": target, "cfg": list(cfg), "noise": noise, "suffix": suffix, "split": list(spec),
